@@ -117,6 +117,13 @@ const HANDLE_USES: &[(&str, &str, &str, &str)] = &[
     ("#[derive(Epserde, Clone, Copy, Debug)]\n#[repr(C)]\n#[zero_copy]\npub enum T { A, B(Handle), C { x: u16, n: u8 } }\n", "T", "T::B(Handle(\"a\"))", "derived zero-copy enum with a pointer holder in a tuple variant"),
     ("#[derive(Epserde, Clone, Copy, Debug)]\n#[repr(C)]\n#[zero_copy]\npub struct Z { pub h: Handle }\n#[derive(Epserde, Clone, Debug)]\npub struct T { pub v: Vec<Z>, pub n: u8 }\n", "T", "T { v: vec![Z { h: Handle(\"a\") }], n: 1 }", "deep struct holding a vector of zero-copy structs with a pointer holder"),
     ("#[derive(Epserde, Clone, Debug)]\npub struct T<A> { pub a: A, pub n: u8 }\n", "T<Vec<[Handle; 3]>>", "T { a: vec![[Handle(\"a\"); 3]], n: 1 }", "generic deep struct instantiated with a vector of arrays of pointer holders"),
+    ("#[derive(Epserde, Clone, Copy, Debug)]\n#[repr(C)]\n#[zero_copy]\npub struct T<A: ZeroCopy> { pub tag: u64, pub payload: A }\n", "T<Handle>", "T { tag: 7, payload: Handle(\"a\") }", "generic derived zero-copy struct instantiated with a pointer holder"),
+    ("#[derive(Epserde, Clone, Copy, Debug)]\n#[repr(C)]\n#[zero_copy]\npub struct T<A: ZeroCopy> { pub items: [A; 2], pub n: u8 }\n", "T<Handle>", "T { items: [Handle(\"a\"), Handle(\"b\")], n: 1 }", "generic derived zero-copy struct with an array of its pointer-holder parameter"),
+    ("#[derive(Epserde, Clone, Copy, Debug)]\n#[repr(C)]\n#[zero_copy]\npub struct G<A: ZeroCopy> { pub tag: u64, pub payload: A }\n", "Vec<G<Handle>>", "vec![G { tag: 7, payload: Handle(\"a\") }]", "vector of generic derived zero-copy structs instantiated with a pointer holder"),
+    ("#[derive(Epserde, Clone, Copy, Debug)]\n#[repr(C)]\n#[zero_copy]\npub enum T<A: ZeroCopy> { N, S([A; 1]) }\n", "T<Handle>", "T::S([Handle(\"a\")])", "generic derived zero-copy enum holding an array of its pointer-holder parameter"),
+    ("static HS: [Handle; 2] = [Handle(\"a\"), Handle(\"b\")];\n", "epserde::impls::iter::SerIter<'static, Handle, core::slice::Iter<'static, Handle>>", "epserde::impls::iter::SerIter::from(HS.iter())", "exact-size-iterator wrapper over hand-declared pointer holders"),
+    ("static HS: [Handle; 2] = [Handle(\"a\"), Handle(\"b\")];\n#[derive(Epserde, Clone, Debug)]\npub struct W<A> { pub a: A, pub post: u8 }\n", "W<epserde::impls::iter::SerIter<'static, Handle, core::slice::Iter<'static, Handle>>>", "W { a: epserde::impls::iter::SerIter::from(HS.iter()), post: 1 }", "iterator wrapper over pointer holders inside a generic struct"),
+    ("static HS: [Handle; 2] = [Handle(\"a\"), Handle(\"b\")];\n", "&'static [Handle]", "&HS[..]", "slice reference to hand-declared pointer holders"),
 ];
 
 struct Def {
@@ -202,7 +209,8 @@ fn probe_source(d: &Def, twin: bool) -> String {
     s.push_str("\nfn main() {\n");
     s.push_str(&format!("    let v: {} = {};\n", d.ty, d.value));
     s.push_str("    let mut sink = CountSink(0);\n");
-    s.push_str(&format!("    let header = 29 + 8 + core::any::type_name::<{}>().len();\n", d.ty));
+    // the header carries the name of the serialization type (e.g. Vec<T> for a slice reference)
+    s.push_str(&format!("    let header = 29 + 8 + core::any::type_name::<<{} as epserde::ser::SerializeInner>::SerType>().len();\n", d.ty));
     s.push_str("    std::panic::set_hook(Box::new(|_| {}));\n");
     s.push_str("    let r = std::panic::catch_unwind(std::panic::AssertUnwindSafe(|| v.serialize(&mut sink).is_ok()));\n");
     s.push_str("    let tag = match r { Ok(true) => \"ok\", Ok(false) => \"err\", Err(_) => \"panic\" };\n");
